@@ -879,7 +879,7 @@ func execPlain(sc *cScenario) *cResult {
 				return
 			}
 			if ci == 0 {
-				if err := deleteTempFiles(conf.OutputDir); err != nil { // as runMain does once at start-up
+				if err := startupCleanup(conf.OutputDir); err != nil { // as runMain does once at start-up
 					res.ParseErr = err
 					return
 				}
@@ -2061,7 +2061,7 @@ func execSched(r *verifsim.Run, sc *cScenario, opt cSchedOpts) *cSchedResult {
 						}
 					}
 					if ci == 0 {
-						deleteTempFiles(conf.OutputDir)
+						startupCleanup(conf.OutputDir)
 					}
 					if ci == 0 && opt.Triggers {
 						// the daemon's own periodic test-recording triggers (real snapshotRecordingTriggers, finite-window path)
